@@ -18,7 +18,7 @@ func init() {
 		Level: "exploration",
 		Rule: "per tag (23 typed + user-defined + unknown + extension with unknown sub-tag) boundary-biased descriptor models: reference-encoded then parsed by the library " +
 			"(parseDescriptors hook, loops of 1 and of mixed descriptors, random reserved bits); the same models written by the library (writeDescriptorsWithLength hook) with the struct's " +
-			"Length correct / 0 / wrong and compared with the reference bytes and with the emitted length fields; malformed descriptor_length followed by a sentinel descriptor (an error on a loop whose lengths are consistent counts as a violation), declared lengths that run past the end of the loop or loops that end inside a descriptor header (error, or the parse ends where the loop ends); " +
+			"Length correct / 0 / wrong and compared with the reference bytes and with the emitted length fields; malformed descriptor_length followed by a sentinel descriptor (an error on a loop whose lengths are consistent counts as a violation, whether 1100 bytes follow the loop or it is the last thing in its section), declared lengths that run past the end of the loop or loops that end inside a descriptor header (error, or the parse ends where the loop ends); " +
 			"distinct = hash of the reference bytes; non-trivial = body length > 0",
 		Assumptions: []string{"reference = refts/descriptors.go written from ISO 13818-1 2.6 and EN 300 468 6.2/6.4/Annex D, validated by 29 known-answer vectors in its unit test",
 			"models stay inside what the structs can represent (one ISO 639 entry, VBI services of unknown ids without lines, BCD digits valid, page ≤ 99, bitrate multiple of 50)",
@@ -32,6 +32,7 @@ func init() {
 			need(m, &out, "loops_parsed_and_compared", 10000)
 			need(m, &out, "malformed_length_cases", 10000)
 			need(m, &out, "malformed_sentinel_intact", 2000)
+			need(m, &out, "malformed_last_in_section", 2000)
 			needSet(m, &out, "tags", 26)
 			needSet(m, &out, "length_modes", 3)
 			return out
@@ -398,6 +399,13 @@ func runC14(c *mon.Ctx) {
 		in := append(append([]byte{}, loop...), 0xDE, 0xAD)
 		in = append(in, bytes.Repeat([]byte{0x5a}, 1100)...)
 		cls := tagClass(d.Tag) + ":" + kind
+		if i%3 == 0 {
+			// ... or the loop is the last thing in its section: four bytes (a CRC_32) follow and nothing else. Whether the descriptors
+			// and entries around a malformed body are delivered must not depend on how many bytes happen to follow the loop
+			in = append(append([]byte{}, loop...), 0xDE, 0xAD, 0xBE, 0xEF)
+			cls += ":last-in-section"
+			c.Count("malformed_last_in_section")
+		}
 		data := map[string]any{"loop": mon.Hex(loop, 700), "malformed_tag": fmt.Sprintf("%#02x", d.Tag)}
 		var got []*astits.Descriptor
 		var off int
